@@ -977,12 +977,23 @@ func tableName(m *Val) string {
 		if base.Op == "global" {
 			if g, ok := base.Aux.(*ssa.Global); ok {
 				et := g.Type().(*types.Pointer).Elem()
-				if sv, isStruct := et.Underlying().(*types.Struct); isStruct && sv.NumFields() == 1 {
+				oneMap := func(sv *types.Struct) bool { // the record's only map (its other fields are labels)
+					n := 0
+					for i := 0; i < sv.NumFields(); i++ {
+						if _, isM := sv.Field(i).Type().Underlying().(*types.Map); isM {
+							n++
+						} else if _, isB := sv.Field(i).Type().Underlying().(*types.Basic); !isB {
+							return false
+						}
+					}
+					return n == 1
+				}
+				if sv, isStruct := et.Underlying().(*types.Struct); isStruct && oneMap(sv) {
 					return base.Name
 				}
 				// the variable holds a pointer to the record
 				if pt, isP := et.Underlying().(*types.Pointer); isP {
-					if sv, isStruct := pt.Elem().Underlying().(*types.Struct); isStruct && sv.NumFields() == 1 {
+					if sv, isStruct := pt.Elem().Underlying().(*types.Struct); isStruct && oneMap(sv) {
 						return base.Name
 					}
 				}
@@ -2110,6 +2121,20 @@ func manualIntAt(v *Val, id int) (lo int64, it types.Type, ord string, ok bool) 
 	}
 	it = map[int64]types.Type{2: types.Typ[types.Uint16], 4: types.Typ[types.Uint32], 8: types.Typ[types.Uint64]}[k]
 	sl := stripCT(v.Args[0])
+	if off, hi, okW := wireOffset(sl, id); okW && (sl.Op == "wire" || stripCT(sl.Args[0]).Op != "wire") {
+		// the block itself, or a cursor moved along it (`b = b[2:]` after every field): UintN takes the first N bytes
+		// of what it is given
+		if hi >= 0 && hi < off+k {
+			return 0, nil, "", false
+		}
+		if outer != nil {
+			if osz, okS := fixedSize(outer); !okS || osz != k {
+				return 0, nil, "", false
+			}
+			it = outer
+		}
+		return off, it, ord, true
+	}
 	if sl.Op != "slice" || stripCT(sl.Args[0]).Op != "wire" || stripCT(sl.Args[0]).ID != id {
 		return 0, nil, "", false
 	}
@@ -2133,6 +2158,42 @@ func manualIntAt(v *Val, id int) (lo int64, it types.Type, ord string, ok bool) 
 		it = outer
 	}
 	return lo, it, ord, true
+}
+
+// wireOffset: v is the block wire#id or a slice of it reached through any number of re-slicings with constant lower
+// bounds: the offset of its first byte in the block, and the end of what it spans (-1: the end of the block).
+func wireOffset(v *Val, id int) (off, hi int64, ok bool) {
+	v = stripCT(v)
+	if v == nil {
+		return 0, 0, false
+	}
+	if v.Op == "wire" && v.ID == id {
+		return 0, -1, true
+	}
+	if v.Op != "slice" || len(v.Args) < 3 || (len(v.Args) > 3 && v.Args[3] != nil) {
+		return 0, 0, false
+	}
+	base, bhi, okB := wireOffset(v.Args[0], id)
+	if !okB {
+		return 0, 0, false
+	}
+	lo := int64(0)
+	if v.Args[1] != nil {
+		l, isC := v.Args[1].Int64()
+		if !isC || l < 0 {
+			return 0, 0, false
+		}
+		lo = l
+	}
+	hi = bhi
+	if v.Args[2] != nil {
+		h, isC := v.Args[2].Int64()
+		if !isC || h < lo {
+			return 0, 0, false
+		}
+		hi = base + h
+	}
+	return base + lo, hi, true
 }
 
 // manualCount: v is ByteOrder.UintN(wire#id), possibly widened (never narrowed or sign-changed at equal width), with N
